@@ -11,7 +11,7 @@ Carried by the correspondence check only: "separate fdl.build calls share no bui
 (the model allocates a fresh result heap per `build`, so the statement is definitional there)
 and the pinning of memo keys against `id` reuse (object identity is abstract in the model).
 -/
-import FiddleModel.Lemmas.Build
+import FiddleModel.Lemmas.BuildMirror
 import FiddleModel.Lemmas.Basic
 
 namespace Fiddle
@@ -85,6 +85,20 @@ theorem C02_log_append_only (h : Heap) (fails : List Nat) (fuel : Nat) (v : GVal
     (st st' : BuildSt) (r : BVal) (hi : st.Inv h)
     (hb : buildVal h fails fuel v path st = .ok (r, st')) : st.log <+: st'.log :=
   (buildVal_step h fails fuel _ _ _ _ _ hb hi).1.logPrefix
+
+/-- The built graph mirrors the config graph: every built object is the image of exactly one
+    configuration object — a Buildable became one call of its callable on the images of its
+    arguments (bound as `bindBuilt` = C01 says), a list / tuple / dict became a container of
+    the same kind holding the images of its elements under the same keys. -/
+theorem C02_built_graph_mirrors_config_graph (h : Heap) (fails : List Nat) (root : GVal)
+    (r : BVal) (st : BuildSt) (hb : build h fails root = .ok (r, st)) : Mirror h st :=
+  build_mirror h fails root r st hb
+
+/-- ... and the value returned for the root is the image of the root. -/
+theorem C02_root_result (h : Heap) (fails : List Nat) (i : Nat) (r : BVal) (st : BuildSt)
+    (hb : build h fails (.ref i) = .ok (r, st)) : r = resultOf st.memo (.ref i) := by
+  have := (buildVal_step h fails _ (.ref i) [] {} r st hb (BuildSt.inv_init h)).2 i rfl
+  simp [resultOf, this]
 
 /-! ## Non-vacuity: a Buildable referenced twice through a list is invoked once and the list
     holds the same built object twice. -/
